@@ -144,6 +144,23 @@ Theorem C11_locked_send_would_deadlock :
 Proof. exact locked_send_would_deadlock. Qed.
 Print Assumptions C11_locked_send_would_deadlock.
 
+(* the keepalive guard (Packetizer._check_keepalive, shape pinned by gen/c11.py): while need_rekey is set the
+   tick does nothing, whatever the state - this is what keeps C11_keepalive_blocks_transport_thread from applying
+   to exchanges started by the thresholds *)
+Theorem C11_keepalive_guarded_while_need_rekey :
+  keepalive_need_guard = true /\ forall s, need s = true -> step s KeepTick = s.
+Proof. exact keepalive_guarded_while_need_rekey. Qed.
+Print Assumptions C11_keepalive_guarded_while_need_rekey.
+
+Theorem C11_threshold_rekey_ignores_keepalive :
+  let with_ticks := [Threshold; TtIter; KeepTick; UserSend 94; KeepTick; Recv 20 false; KeepTick;
+                     Recv 31 false; KeepTick; Recv 21 false; UserWake] in
+  let without := [Threshold; TtIter; UserSend 94; Recv 20 false; Recv 31 false; Recv 21 false; UserWake] in
+  run (init_st true) with_ticks = run (init_st true) without /\
+  map fst (out (run (init_st true) with_ticks)) = [20; 30; 21; 94].
+Proof. exact threshold_rekey_ignores_keepalive. Qed.
+Print Assumptions C11_threshold_rekey_ignores_keepalive.
+
 (* the NEWKEYS window.  `run` above is the LTS in which _parse_newkeys writes in_kex and sets clear_to_send in
    ONE clear_to_send_lock section and signals completion_event only afterwards (v1).  The working tree is that
    LTS exactly when the translator finds that shape (nk_atomic, generated): *)
